@@ -581,6 +581,14 @@ def _delegate(model, rep, c, fn):
                  f"class {rcls}", fn.lineno)
 
 
+def _only_raises(fn) -> bool:
+    """the method does nothing but raise (abstract, or unsupported for the
+    class)"""
+    body = [st for st in fn.node.body if not (
+        isinstance(st, ast.Expr) and isinstance(st.value, ast.Constant))]
+    return bool(body) and all(isinstance(st, ast.Raise) for st in body)
+
+
 def _r2_layout(model, rep):
     R2 = "C12-R2"
     # which _uniform leave the subdomains to the generic propagation?
@@ -592,8 +600,8 @@ def _r2_layout(model, rep):
                 and isinstance(n.func, ast.Name) and n.func.id == "replace"
                 and any(k.arg == "t" for k in n.keywords)]
         if not reps:
-            if c.name == "Mesh":
-                continue        # abstract: raises NotImplementedError
+            if _only_raises(fn):
+                continue        # abstract / unsupported: raises
             _delegate(model, rep, c, fn)
             continue
         call = reps[0]
@@ -1147,6 +1155,10 @@ def run(model: Model, rep, tier: str) -> None:
     _line_uniform(model, rep)
     _count_dispatch(model, rep)
     _r4_warnings(model, rep)
+    from ..dgspace import report as _dg_report
+    _dg_report(model, rep, "C12-R1", lambda n: n == "_uniform",
+               "refined() returns a corrupt mesh without any error (cells "
+               "pointing beyond the point array)")
     rep.require_min("C12-R1", 10)
     rep.require_min("C12-R2", 5)
     rep.require_min("C12-R3", 12)
@@ -1160,6 +1172,8 @@ _LI = "skfem/mesh/mesh_line_1.py"
 _ME = "skfem/mesh/mesh.py"
 _T2 = "skfem/mesh/mesh_tet_2.py"
 MUTANTS = [
+    ("periodic meshes inherit uniform refinement again",
+     ("skfem/mesh/mesh_dg.py", "    def _uniform(self, *args, **kwargs):\n        raise NotImplementedError\n\n", ""), "C12-R1"),
     ("refined() takes only Python ints for counts",
      (_ME, "        if isinstance(times_or_ix, (int, np.integer)):",
       "        if isinstance(times_or_ix, int):"), "C12-R4"),
